@@ -8,6 +8,7 @@ Open Scope N_scope.
 Definition run_case (c : list N) : list N :=
   match c with
   | 1 :: args => run_world args
+  | 2 :: args => run_twin args
   | 19 :: args => run_bits args
   | 6 :: args => run_borrow args
   | 7 :: args => run_reserve args
